@@ -85,6 +85,7 @@ func c07Options(t *tape.Tape, thorough bool) gen.Options {
 	o.BigBodies = t.Bool(1, 4)
 	o.TwinNames = t.Bool(1, 3)
 	o.SamePkgConflict = t.Bool(1, 2)
+	o.Nested = t.Bool(1, 3) // differential oracle: shapes beyond the conventional subset cost nothing
 	return o
 }
 
